@@ -149,8 +149,15 @@ func (fr *frame) runDefer(d *deferred) {
 	defer func() {
 		if !ok {
 			// Deferred call created a new state of panic.
+			p := recover()
+			switch p.(type) {
+			case pathAbort, exitPanic, goexitPanic:
+				// engine-level termination (also of a goroutine killed while
+				// parked inside a deferred call): not observable by the target
+				panic(p)
+			}
 			fr.panicking = true
-			fr.panic = recover()
+			fr.panic = p
 		}
 	}()
 	call(fr.i, fr, d.instr.Pos(), d.fn, d.args)
